@@ -161,8 +161,37 @@ def load_prop(prop):
 # ------------------------------------------------------------------ shard side
 
 
+def _start_line_coverage(prop, shard):
+    """GV_COVERAGE_DIR=<dir>: record which lines of the repository this shard executed (sys.monitoring, each line reported
+    once, so the cost is negligible); tools/coverage_report.py merges the files.  A planning aid, not a verdict."""
+    d = os.environ.get('GV_COVERAGE_DIR')
+    if not d or not hasattr(sys, 'monitoring'):
+        return None
+    from . import boot
+    mon = sys.monitoring
+    tool = 4
+    seen = set()
+    prefix = os.path.join(boot.REPO, 'gym_gridverse')
+
+    def on_line(code, line):
+        if code.co_filename.startswith(prefix):
+            seen.add((code.co_filename[len(boot.REPO) + 1:], line))
+        return mon.DISABLE
+    mon.use_tool_id(tool, 'gvmon-coverage')
+    mon.register_callback(tool, mon.events.LINE, on_line)
+    mon.set_events(tool, mon.events.LINE)
+
+    def dump():
+        mon.set_events(tool, 0)
+        os.makedirs(d, exist_ok=True)
+        with open(os.path.join(d, f'{prop}.{shard}.json'), 'w') as f:
+            json.dump(sorted(seen), f)
+    return dump
+
+
 def shard_main(prop, tier, seed, shard, nshards, out, budget_s):
     res = None
+    dump_cov = _start_line_coverage(prop, shard)
     try:
         mod = load_prop(prop)
         ctx = Ctx(prop, tier, seed, shard, nshards)
@@ -181,6 +210,8 @@ def shard_main(prop, tier, seed, shard, nshards, out, budget_s):
         }
     with open(out, 'w') as f:
         json.dump(res, f, default=str)
+    if dump_cov:
+        dump_cov()
     return 0
 
 
